@@ -305,8 +305,10 @@ def walkExpr (c : Ctx) : Expr → W Inter
       return .item (← consume (visitBuiltinCall c.env (← getB) f arguments))
     | _ => err "not callable"
   | .assign left right => do
+    -- the left-hand reference first, then the value (repair 5ccd31a)
+    let l ← walkExpr c left
     let r ← walkRvalue c right
-    match ← walkExpr c left with
+    match l with
     | .local l k =>
       (match k with
        | .let_ => do return .item (← consume (visitLocalAssignment c.env (← getB) l r))
@@ -394,11 +396,17 @@ def walkStmt (c : Ctx) (breakLabel : Option Nat) : Stmt → W Unit
   | .if_ cnd a b => do
     let condition ← walkRvalue c cnd
     let conditionLabel ← markBranchPoint
-    walkStmt c breakLabel a
+    -- each branch is walked with its own clone of the name map (repair a011e08), dropped afterwards
+    let outer ← getLocals
+    let r ← attempt (walkStmt c breakLabel a)
+    setLocals outer
+    let some _ := r | failure
     let consequenceLabel ← markBranchPoint
     let alternativeLabel ← (match b with
       | some n => do
-        walkStmt c breakLabel n
+        let r ← attempt (walkStmt c breakLabel n)
+        setLocals outer
+        let some _ := r | failure
         return some (← markBranchPoint)
       | none => return none : W (Option Nat))
     checkConditionType condition
@@ -412,7 +420,12 @@ def walkStmt (c : Ctx) (breakLabel : Option Nat) : Stmt → W Unit
     let defaultPos := clauses.findIdx? (·.1.isNone)
     let headRef ← markBranchPoint
     let exitRef ← markBranchPoint
-    let bodies ← walkBodies c (some exitRef) clauses
+    -- `let mut locals = locals.clone()` (repair 2a702d4): the case block is one scope, dropped afterwards
+    -- (also when a body fails: the clone is simply dropped)
+    let outer ← getLocals
+    let bodies? ← attempt (walkBodies c (some exitRef) clauses)
+    setLocals outer
+    let some bodies := bodies? | failure
     if nCases = caseConditions.length ∧ clauses.length = bodies.length then
       setB (visitSwitchStatement (← getB) caseConditions bodies defaultPos headRef exitRef)
     else failure
